@@ -427,7 +427,7 @@ def trivial_cast(value, type_: Type[AnyXSDType]) -> AnyXSDType:  # workaround. W
     :param value: The value to cast
     :param type_: Target type to cast into. Must be an XSD type from this module
     """
-    if isinstance(value, type_):
+    if isinstance(value, type_) and not (isinstance(value, bool) and type_ is not bool):
         return value
     for baseclass in (int, float, str):
         if isinstance(value, baseclass) and issubclass(type_, baseclass):
